@@ -58,14 +58,15 @@ pub trait DecisionNNFBuilder<'a>: TopDownBuilder<'a, BddPtr<'a>> {
         cache: &mut FxHashMap<u128, Vec<(BitSet, BddPtr<'a>)>>,
     ) -> BddPtr<'a> {
         // check for base case
-        if level >= cnf.num_vars() || sat.is_sat() {
+        // levels index the *builder's* order, which may cover more variables than this CNF
+        if level >= usize::max(self.order().num_vars(), cnf.num_vars()) || sat.is_sat() {
             return BddPtr::true_ptr();
         }
         let cur_v = self.order().var_at_level(level);
 
         // check if this literal is currently set in unit propagation; if
-        // it is, skip it
-        if sat.is_set(cur_v) {
+        // it is, skip it (a variable the CNF does not know is free: skip it too)
+        if cur_v.value_usize() >= cnf.num_vars() || sat.is_set(cur_v) {
             return self.topdown_h(cnf, sat, level + 1, cache);
         }
 
